@@ -89,6 +89,8 @@ structure State where
   ues : List Ue := []
   localSeq : Nat := 0          -- LocalRecordSequenceNumber
   sessionSeq : Nat := 0        -- ChargingSessionSequence
+  abmfUp : Bool := true        -- the account-balance server can be reached (false: every CCR ends in the error path)
+  rfUp : Bool := true          -- the rating server can be reached (false: every SUR ends in the error path)
 deriving Repr, Inhabited
 
 structure Mui where
@@ -308,6 +310,23 @@ def setRecord (rs : List Record) (i : Nat) (r : Record) : List Record := rs.set 
 /-- the record-size guard of ChargingDataUpdate (BER sizes) is a parameter of the step function -/
 abbrev SplitGuard := Record → List Usage → Bool
 
+/-! ### reachability of the two servers
+
+  `SendAccountDebitRequest` / `SendServiceUsageRequest` return an error when the server cannot be dialled or
+  does not answer within 5 s; the processor then takes the same path as for a request the server leaves
+  unanswered.  As seen from the CHF an unreachable server is therefore one that knows no account / no tariff:
+  every request gets `noAnswer` (`handleCCR_unreachable`, `handleSUR_unreachable` in Lemmas/ChargingOutage) and
+  nothing is written to the store. -/
+
+/-- the accounts the CHF's credit-control requests can reach -/
+def seenAccts (s : State) : Abmf.Store := if s.abmfUp then s.accts else []
+
+/-- the tariffs the CHF's service-usage requests can reach -/
+def seenTariffs (s : State) : List Rating.Tariff := if s.rfUp then s.tariffs else []
+
+/-- the account store after credit control: requests that reached no server changed nothing -/
+def acctsAfter (s : State) (a : Abmf.Store) : Abmf.Store := if s.abmfUp then a else s.accts
+
 /-! ### operations -/
 
 def sessionId (supi nf : Bytes) (n : Nat) : Bytes := supi ++ nf ++ [45] ++ decimal n
@@ -346,7 +365,7 @@ def update (guard : SplitGuard) (s : State) (sid : Bytes) (r : Req) : State × R
     match lookupSid ue.cdr sid with
     | none => (s, { status := 404 })
     | some idx =>
-      match creditControl s.tariffs r.supi r.trigs s.accts ue.groups r.usages with
+      match creditControl (seenTariffs s) r.supi r.trigs (seenAccts s) ue.groups r.usages with
       | (accts', groups', muis) =>
         let partialRec := partialOf r.trigs r.usages false
         let cur : Record := ue.records.getD idx default
@@ -359,7 +378,7 @@ def update (guard : SplitGuard) (s : State) (sid : Bytes) (r : Req) : State × R
         let cur2 := appendUsage cur1 r.usages
         let cur3 : Record := if partialRec then { cur2 with cause := 1, rsn := some 1 } else cur2
         let ue' : Ue := { ue with groups := groups', cdr := cdr1, records := setRecord records1 idx1 cur3 }
-        ({ s with accts := accts', ues := putUe s.ues ue' }, { status := 200, seq := some r.seq, muis := muis })
+        ({ s with accts := acctsAfter s accts', ues := putUe s.ues ue' }, { status := 200, seq := some r.seq, muis := muis })
 
 def release (s : State) (sid : Bytes) (r : Req) : State × Resp :=
   match findUe s.ues r.supi with
@@ -368,13 +387,13 @@ def release (s : State) (sid : Bytes) (r : Req) : State × Resp :=
     match lookupSid ue.cdr sid with
     | none => (s, { status := 404 })
     | some idx =>
-      match creditControl s.tariffs r.supi r.trigs s.accts ue.groups r.usages with
+      match creditControl (seenTariffs s) r.supi r.trigs (seenAccts s) ue.groups r.usages with
       | (accts', groups', _) =>
         let cur : Record := ue.records.getD idx default
         let cur2 : Record := { appendUsage cur r.usages with cause := 0 }
         let ue' : Ue := { ue with groups := groups', records := setRecord ue.records idx cur2,
                                   cdr := removeSid ue.cdr sid }
-        ({ s with accts := accts', ues := putUe s.ues ue' }, { status := 204 })
+        ({ s with accts := acctsAfter s accts', ues := putUe s.ues ue' }, { status := 204 })
 
 /-- split a byte string on '_' -/
 def splitUnderscore : Bytes → List Bytes
@@ -415,6 +434,9 @@ def creditAcct (s : State) (supi : Bytes) (rg : Nat) (amt : Int) : State :=
      | some v => { s with accts := Abmf.put s.accts supi rg (.num (v + amt)) }
      | none => s)
   | none => s
+
+/-- the servers become (un)reachable: nothing of the CHF's or the servers' state changes -/
+def setReach (s : State) (abmfUp rfUp : Bool) : State := { s with abmfUp := abmfUp, rfUp := rfUp }
 
 def step (guard : SplitGuard) (s : State) : Op → State × Resp
   | .create r => create s r
